@@ -651,7 +651,7 @@ func monC14(c *Case, tr *Trace) []Violation {
 		case "drain2", "idle":
 			// fully idle by wire evidence: every stream the server received has had its close emitted, every
 			// stream the client opened has seen its close or was cancelled, nothing is in flight, no op pending
-			idle := len(sn.PendingOps) == 0 && allInvocationsReturned(tr, sn.Step) && base != nil && sn.InFlight == 0 && c.Reg == nil // (registry histories open tunnels as they go: no baseline)
+			idle := len(sn.PendingOps) == 0 && sn.Parked == 0 && allInvocationsReturned(tr, sn.Step) && base != nil && sn.InFlight == 0 && c.Reg == nil // (registry histories open tunnels as they go: no baseline)
 			nestedUp := 0
 			for _, t := range tr.Tunnels {
 				if t.Kind == "nested" && t.Opened && (t.DoneStep < 0 || t.DoneStep > sn.Step) {
